@@ -96,6 +96,7 @@ type Run struct {
 	tableBy, rowBy, colBy, residu *benchproc.Projection
 	stream                        []resRec
 	raws                          []rawRes
+	fixedBad                      string // a kept result whose value of a fixed-order key is not in the key's list
 	midSame                       bool // Tables made mid-stream rendered the same after the Builder was extended
 	umAll                         map[[2]string]string // unit metadata of the whole run, parsed by the harness
 	builder                       *benchtab.Builder // kept for the in-process perturbation runs (C15)
@@ -180,6 +181,7 @@ func runPipeline(d Defaults, flagArgs []string) *Run {
 	run.exprs = []string{*flagTable, *flagRow, *flagCol, *flagIgnore}
 	run.conf, run.thr = *flagConfidence, thresholds
 
+	fixed := fixedFields([]string{*flagTable, *flagRow, *flagCol, *flagIgnore})
 	stat := benchtab.NewBuilder(tableBy, rowBy, colBy, residue)
 	files := benchfmt.Files{Paths: flags.Args(), AllowStdin: true, AllowLabels: true}
 	for files.Scan() {
@@ -192,6 +194,11 @@ func runPipeline(d Defaults, flagArgs []string) *Run {
 					fmt.Fprintln(&wErr, err)
 				}
 				continue
+			}
+			for _, ff := range fixed {
+				if v := ff.proj.Project(rec).Get(ff.field); !ff.in[v] && run.fixedBad == "" {
+					run.fixedBad = fmt.Sprintf("%s=%q-kept-but-not-in-%q", ff.key, v, ff.list)
+				}
 			}
 			run.raws = append(run.raws, snapshotRaw(rec))
 			stat.Add(rec)
@@ -539,4 +546,41 @@ func encUnits(run *Run, s *Stream) (um, tidy string) {
 		tidy = strings.Join(ts, ",")
 	}
 	return
+}
+
+// fixedField: a projection key with a fixed value order `key@(v1 v2 ...)`. The documentation of
+// the projection syntax says such a list is also a filter: results whose value is not listed
+// are dropped. The value is extracted with a private one-key projection (public API).
+type fixedField struct {
+	key   string
+	list  []string
+	in    map[string]bool
+	proj  *benchproc.Projection
+	field *benchproc.Field
+}
+
+func fixedFields(exprs []string) []fixedField {
+	var out []fixedField
+	for _, e := range exprs {
+		fs, err := benchproc.VerifParseProjectionC14(e)
+		if err != nil {
+			continue
+		}
+		for _, f := range fs {
+			if f.Order != "fixed" || f.Key == ".fullname" || f.Key == ".config" {
+				continue
+			}
+			var pp benchproc.ProjectionParser
+			p, err := pp.Parse(f.Key, nil)
+			if err != nil || len(p.Fields()) != 1 {
+				continue
+			}
+			ff := fixedField{key: f.Key, list: f.Fixed, in: map[string]bool{}, proj: p, field: p.Fields()[0]}
+			for _, v := range f.Fixed {
+				ff.in[v] = true
+			}
+			out = append(out, ff)
+		}
+	}
+	return out
 }
